@@ -290,24 +290,48 @@ def F9(m, R):
     idx = norm(loop.target.elts[0])
     point = norm(loop.target.elts[1])
     # classify what a region's path does: which blocks (by marker statements) are executed
+    active = norm(loop.target.elts[2])
+
+    def touches(st, attr):
+        """(reads, writes) of point.<attr> in the statement: a write is a store, a deletion, or a mutating method call on it"""
+        rd = wr = False
+        for x in ast.walk(st):
+            if isinstance(x, ast.Attribute) and x.attr == attr and norm(x.value) == point:
+                par = getattr(x, '_parent', None)
+                if isinstance(x.ctx, (ast.Store, ast.Del)):
+                    wr = True
+                elif isinstance(par, ast.Attribute) and par.attr in ('append', 'extend', 'insert', 'remove', 'pop', 'clear') and isinstance(getattr(par, '_parent', None), ast.Call):
+                    wr = True
+                elif isinstance(par, ast.Subscript) and par.value is x and isinstance(par.ctx, (ast.Store, ast.Del)):
+                    wr = True
+                elif isinstance(par, ast.AugAssign) and par.target is x:
+                    wr = True
+                else:
+                    rd = True
+        return rd, wr
+
     def markers(st):
-        t = norm(st)
         out = set()
         if isinstance(st, ast.For):
-            it = norm(st.iter)
-            if it == norm(loop.target.elts[2]):
+            itn = names_in(st.iter)
+            rd_stop, _ = touches(ast.Expr(value=st.iter), ro.STOP)
+            rd_start, _ = touches(ast.Expr(value=st.iter), ro.START)
+            if active in itn:
                 out.add('START-BLOCK')
-            elif it.endswith('%s.%s)))' % (point, ro.STOP)) or it == '%s.%s' % (point, ro.STOP) or (ro.STOP in it and 'reversed' in it):
+            elif rd_stop:
                 out.add('STOPSCAN')
-            elif ro.START in it:
+            elif rd_start:
                 out.add('INTERIOR')
-        if isinstance(st, (ast.AugAssign, ast.Assign)) and any(isinstance(x, ast.Attribute) and x.attr == ro.START and isinstance(x.ctx, ast.Store) for x in ast.walk(st)):
-            if isinstance(st, ast.AugAssign) or 'current' in t or norm(loop.target.elts[2]) in t:
-                out.add('RESTART')
-            else:
-                out.add('INTERIOR')
-        if isinstance(st, ast.Expr) and call_name(st.value) == 'extend' and ro.STOP in t:
+            return out
+        rd_a, wr_a = touches(st, ro.START)
+        rd_s, wr_s = touches(st, ro.STOP)
+        uses_active = active in names_in(st)
+        if wr_s and uses_active:
             out.add('RESTART')
+        if wr_a:
+            out.add('RESTART' if uses_active else 'INTERIOR')
+        elif rd_a and not uses_active and isinstance(st, (ast.Expr, ast.Assign, ast.AugAssign)) and not wr_s:
+            out.add('INTERIOR')
         return out
     results = {}
     for region, ranks in (('<start', (0, 1, 3)), ('=start', (1, 1, 3)), ('inside', (2, 1, 3)), ('=end', (3, 1, 3)), ('>end', (4, 1, 3))):
@@ -607,7 +631,11 @@ def F4(m, R):
             R.viol(f, f.node, 'a start that lies between two points is never examined: a setting active there is missed', construct=cons)
     else:
         c = next(x for x in ast.walk(pre) if isinstance(x, ast.Call) and call_name(x) == 'ansi_settings_at')
-        sets = [x for x in ast.walk(pre) if isinstance(x, ast.Assign) and norm(x.targets[0]) == 'found_start']
+        first_names = {r_.value.elts[0].id for r_ in f.walk() if isinstance(r_, ast.Return) and isinstance(r_.value, ast.Tuple) and len(r_.value.elts) == 2 and
+                       isinstance(r_.value.elts[0], ast.Name)} - {'start', 'end'}
+        sets = [x for b_ in pre.body for x in ast.walk(b_) if isinstance(x, ast.Assign) and isinstance(x.targets[0], ast.Name) and x.targets[0].id in first_names]
+        sets = sets or [x for b_ in pre.body for x in ast.walk(b_) if isinstance(x, ast.Return) and isinstance(x.value, ast.Tuple)]
+        sets = [ast.Assign(targets=[ast.Name(id='_', ctx=ast.Store())], value=x.value.elts[0]) if isinstance(x, ast.Return) else x for x in sets]
         okp = [norm(a) for a in c.args] == ['start'] and sets and all(norm(x.value) == 'start' for x in sets)
         extra_conds = [c_ for c_ in conjuncts(pre.test) if not (isinstance(c_, ast.Compare) and isinstance(c_.ops[0], ast.NotIn) and norm(c_.left) == 'start')
                        and quant_kind(c_) is None]
